@@ -298,4 +298,4 @@ RULES = {
 
 
 def parts(tier):
-    return [Part("history", driver=Driver, rules=RULES, quick=(16, 120), thorough=(16, 2000), steps=(20, 50))]
+    return [Part("history", driver=Driver, rules=RULES, quick=(16, 250), thorough=(16, 2000), steps=(20, 50))]
